@@ -113,7 +113,7 @@ def drive_small(ctx: Ctx) -> None:
     # 3-phrase lists, sampled
     rng = random.Random(ctx.seed * 31 + 5)
     singles = [[s, ln] for s in range(7) for ln in range(5)]
-    n3 = ctx.pick(1500, 40000)
+    n3 = ctx.pick(1500, 200000)
     for j in range(n3):
         pl = sorted((rng.choice(singles) for _ in range(3)), key=lambda p: p[0])
         if rng.random() < 0.5:
@@ -179,6 +179,6 @@ def strat_relations(ctx: Ctx):
 
 PARTS: list[Part] = [
     custom_part("small", drive_small, check_case, {"quick": 8, "thorough": 16}),
-    hyp_part("relations", strat_relations, check_case, {"quick": 300, "thorough": 5000},
+    hyp_part("relations", strat_relations, check_case, {"quick": 300, "thorough": 25000},
              {"quick": 4, "thorough": 16}),
 ]
